@@ -6,9 +6,9 @@ CONSTANTS
   Sizes <- AltSizes
   Limits <- LimMix
   Fills <- AltFills
-  Alphabet <- AltAlphabet
+  Alphabet <- AltLeanAlphabet
   Resizes <- AltResizes
-  MaxDepth = 3
+  MaxDepth = 4
   Emit = TRUE
   CheckDump = FALSE
   ExcuseKnown = TRUE
